@@ -16,18 +16,24 @@ func init() {
 	register(&Prop{
 		ID:          "C16",
 		Title:       "Message comparers are sound equivalences",
-		Explanation: "R16.1 the default comparer mirrors proto.Equal structurally: compare handles nil and validity, equalMessage rejects different descriptors, stops at the first unequal field, requires the field to be set on both sides, compares field counts and unknown fields; equalField dispatches lists and maps before scalars and its change_time exception needs both the field name and a containing message called Change; equalValue covers every protoreflect.Kind with the accessor of that kind (NaN equal to NaN for floats) and consults the value comparer first, honouring its ok flag. R16.2 each tolerance comparer returns ok=false on every path where the field is not of its own kind / message type. R16.3 whenever a tolerance comparer decides (ok=true) its verdict is a constant, an agreement of validity, or `absdiff(x, y) <=/< T` where absdiff is one of the accepted absolute-difference idioms over one quantity derived from x and one derived from y, and T depends on x and y only through min/max of the same function of both (reflexive and symmetric by form). DurationValueWithinP does not have this form: recorded known finding F-15. R16.4 And/Or return at the first false/true and true/false after the loop; ValueAnd/ValueOr propagate ok only from comparers that spoke. R16.5 the resources apply the equivalence to projected values and skip only on its verdict (shared with R04.5/R04.6). R16.1 equalMessage: two passes whose per-field tables are both-populated -> equalField, one side only and zero-comparable (value comparer configured, singular field without presence) -> equalValue against the zero value, otherwise unequal. R16.5 also: the equivalence is consulted only inside Pull subscriptions. Does NOT decide agreement with proto.Equal on all message pairs, tolerance arithmetic, NaN and unknown-field corner cases.",
+		Explanation: "R16.1 the default comparer mirrors proto.Equal structurally: compare handles nil and validity, equalMessage rejects different descriptors, stops at the first unequal field, requires the field to be set on both sides, compares field counts and unknown fields; equalField dispatches lists and maps before scalars and its change_time exception needs both the field name and a containing message called Change; equalValue covers every protoreflect.Kind with the accessor of that kind (NaN equal to NaN for floats) and consults the value comparer first, honouring its ok flag. R16.2 each tolerance comparer returns ok=false on every path where the field is not of its own kind / message type. R16.3 whenever a tolerance comparer decides (ok=true) its verdict is a constant, an agreement of validity, or `absdiff(x, y) <=/< T` where absdiff is one of the accepted absolute-difference idioms over one quantity derived from x and one derived from y, and T depends on x and y only through min/max of the same function of both (reflexive and symmetric by form). DurationValueWithinP does not have this form: recorded known finding F-15. R16.4 And/Or return at the first false/true and true/false after the loop; ValueAnd/ValueOr propagate ok only from comparers that spoke. R16.5 the resources apply the equivalence to projected values and skip only on its verdict (shared with R04.5/R04.6). R16.1 equalMessage: two passes whose per-field tables are both-populated -> equalField, one side only and zero-comparable (value comparer configured, singular field without presence) -> the configured comparer's verdict on the value and the zero value when it speaks, unequal when it does not (never the exact comparison of equalValue: a populated -0.0 is not an unset 0), otherwise unequal. R16.5 also: the equivalence is consulted only inside Pull subscriptions. Does NOT decide agreement with proto.Equal on all message pairs, tolerance arithmetic, NaN and unknown-field corner cases.",
 		Assumptions: []string{"math.Abs/Min/Max, time.Time.Sub/Before have their mathematical meaning"},
 		Run:         runC16,
 		Controls: []Control{
+			{Name: "collection-removal-keeps-held", File: "pkg/resource/collection.go", Old: "\t\t\tif c.equivalence != nil {\n\t\t\t\tlast, ok := held[change.Id]", New: "\t\t\tif c.equivalence != nil && change.NewValue != nil {\n\t\t\t\tlast, ok := held[change.Id]", Expect: "every delivery updates"},
 			{Name: "unknown-fields-last-occurrence-only", File: "pkg/cmp/cmp.go", Old: "\t\tmx[fnum] = append(mx[fnum], x[:n]...)", New: "\t\tmx[fnum] = x[:n:n]", Expect: "R16.1"},
 			{Name: "delete-kind-case", File: "pkg/cmp/cmp.go", Old: "\tcase pref.StringKind:\n\t\treturn x.String() == y.String()\n", New: "", Expect: "R16.1"},
 			{Name: "uint-compared-as-int", File: "pkg/cmp/cmp.go", Old: "\t\treturn x.Uint() == y.Uint()", New: "\t\treturn x.Int() == y.Int()", Expect: "R16.1"},
-			{Name: "change-time-anywhere", File: "pkg/cmp/cmp.go", Old: "case fd.Name() == \"change_time\" && fd.ContainingMessage().Name() == \"Change\":", New: "case fd.Name() == \"change_time\":", Expect: "R16.1"},
+			{Name: "change-time-anywhere", File: "pkg/cmp/cmp.go", Old: "\treturn fd.Name() == \"change_time\" && fd.ContainingMessage().Name() == \"Change\"", New: "\treturn fd.Name() == \"change_time\"", Expect: "R16.1"},
 			{Name: "missing-field-equal", File: "pkg/cmp/cmp.go", Old: "\t\tcase my.Has(fd):\n\t\t\tequal = eq.equalField(fd, vx, vy)\n\t\tcase eq.zeroComparable(fd):", New: "\t\tcase true:\n\t\t\tequal = eq.equalField(fd, vx, vy)\n\t\tcase eq.zeroComparable(fd):", Expect: "R16.1"},
-			{Name: "revert-F42-zero-never-within-tolerance", File: "pkg/cmp/cmp.go", Old: "\t\tcase eq.zeroComparable(fd):\n\t\t\t// y holds the zero value, a value comparer may still accept the pair (0 is within 0.5 of 0.3)\n\t\t\tequal = eq.equalValue(fd, vx, vy)\n", New: "", Expect: "R16.1"},
+			{Name: "revert-F42-zero-never-within-tolerance", File: "pkg/cmp/cmp.go", Old: "\t\tcase eq.zeroComparable(fd):\n\t\t\t// y holds the zero value, a value comparer may still accept the pair (0 is within 0.5 of 0.3)\n\t\t\tequal = eq.equalZero(fd, vx, vy)\n", New: "", Expect: "R16.1"},
+			{Name: "revert-F49-zero-compared-exactly", File: "pkg/cmp/cmp.go", Old: "\t\t\tequal = eq.equalZero(fd, vx, vy)\n", New: "\t\t\tequal = eq.equalValue(fd, vx, vy)\n", Expect: "R16.1"},
+			{Name: "revert-F50-float-not-reflexive", File: "pkg/cmp/number.go", Old: "\t\tif fx == fy || (math.IsNaN(fx) && math.IsNaN(fy)) {\n\t\t\t// a value is always equivalent to itself; the arithmetic below has no answer for infinities and NaN\n\t\t\treturn true, true\n\t\t}\n", New: "", Expect: "R16.6"},
+			{Name: "float-identity-without-nan", File: "pkg/cmp/number.go", Old: "\t\tif fx == fy || (math.IsNaN(fx) && math.IsNaN(fy)) {\n", New: "\t\tif fx == fy {\n", Expect: "R16.6"},
+			{Name: "revert-F51-change-time-needs-both", File: "pkg/cmp/cmp.go", Old: "\t\tcase ignored(fd):\n\t\t\t// not compared, whichever of the messages carry it\n", New: "", Expect: "change_time of a Change is skipped"},
+			{Name: "float-identity-as-helper", Silent: true, File: "pkg/cmp/number.go", Old: "\t\tif fx == fy || (math.IsNaN(fx) && math.IsNaN(fy)) {\n", New: "\t\tif same := fx == fy || (math.IsNaN(fx) && math.IsNaN(fy)); same {\n"},
 			{Name: "zero-comparable-without-comparer", File: "pkg/cmp/cmp.go", Old: "\treturn eq.cmpValue != nil && !fd.HasPresence() && !fd.IsList() && !fd.IsMap()", New: "\treturn !fd.HasPresence() && !fd.IsList() && !fd.IsMap()", Expect: "R16.1"},
-			{Name: "second-pass-ignores-fields-only-y-has", File: "pkg/cmp/cmp.go", Old: "\t\tcase eq.zeroComparable(fd):\n\t\t\tequal = eq.equalValue(fd, mx.Get(fd), vy)\n\t\tdefault:\n\t\t\tequal = false\n", New: "\t\tcase eq.zeroComparable(fd):\n\t\t\tequal = eq.equalValue(fd, mx.Get(fd), vy)\n\t\tdefault:\n", Expect: "R16.1"},
+			{Name: "second-pass-ignores-fields-only-y-has", File: "pkg/cmp/cmp.go", Old: "\t\tcase eq.zeroComparable(fd):\n\t\t\tequal = eq.equalZero(fd, mx.Get(fd), vy)\n\t\tdefault:\n\t\t\tequal = false\n", New: "\t\tcase eq.zeroComparable(fd):\n\t\t\tequal = eq.equalZero(fd, mx.Get(fd), vy)\n\t\tdefault:\n", Expect: "R16.1"},
 			{Name: "ok-for-foreign-kinds", File: "pkg/cmp/number.go", Old: "\t\t\treturn false, false", New: "\t\t\treturn false, true", Expect: "R16.2"},
 			{Name: "time-drop-before-branch", File: "pkg/cmp/time.go", Old: "\t\tif xt.Before(yt) {\n\t\t\treturn yt.Sub(xt) <= d, true\n\t\t}\n\t\treturn xt.Sub(yt) <= d, true", New: "\t\treturn xt.Sub(yt) <= d, true", Expect: "R16.3"},
 			{Name: "float-asymmetric-margin", File: "pkg/cmp/number.go", Old: "relMarg := fraction * math.Min(math.Abs(fx), math.Abs(fy))", New: "relMarg := fraction * math.Abs(fx)", Expect: "R16.3"},
@@ -56,6 +62,7 @@ func runC16(c *an.Ctx) {
 	c.Min("R16.1", 25)
 	c.Min("R16.2", 4)
 	c.Min("R16.3", 4)
+	c.Min("R16.6", 1)
 	c.Min("R16.4", 6)
 	c.Min("R16.5", 4)
 }
@@ -360,7 +367,7 @@ func r161(c *an.Ctx) {
 			leaves := an.DecisionTree(ps.cb, an.DTConfig{Names: names})
 			which := []string{"first pass (fields of x)", "second pass (fields of y)"}[pi]
 			okTable, why := len(leaves) > 0, ""
-			sawHas, sawZero, sawNo := false, false, false
+			sawHas, sawZero, sawNo, sawIgnored := false, false, false, false
 			for _, l := range leaves {
 				if l.Undec != "" || l.Panics || len(l.Returns) != 1 {
 					okTable, why = false, "table not extracted: "+l.Undec
@@ -409,9 +416,34 @@ func r161(c *an.Ctx) {
 					}
 					return strings.Contains(stored, call) || strings.Contains(ret, call)
 				}
+				// the exception: change_time of a message called Change is not compared, whichever side carries it
+				ignoredRow := false
+				{
+					nameIs, msgIs := "", ""
+					for a, v := range l.AssignM {
+						if strings.Contains(a, `"change_time"`) && strings.Contains(a, "fd.Name()") {
+							nameIs = v
+						}
+						if strings.Contains(a, `"Change"`) && strings.Contains(a, "ContainingMessage()") {
+							msgIs = v
+						}
+					}
+					ignoredRow = nameIs == "true" && msgIs == "true"
+				}
 				switch {
 				case otherCmp:
 					fail("values are compared in the wrong order or with the wrong operands")
+				case ignoredRow:
+					sawIgnored = true
+					anyCmp := fieldCall != "" || valueCall != ""
+					for _, cl := range l.Calls {
+						if strings.Contains(cl, "eq.cmpValue(") {
+							anyCmp = true
+						}
+					}
+					if anyCmp || storedConst || retFalse {
+						fail("change_time of a Change message takes part in the comparison")
+					}
 				case has == "true" && pi == 0:
 					sawHas = true
 					if fieldCall == "" || valueCall != "" || !decides(fieldCall) {
@@ -424,8 +456,53 @@ func r161(c *an.Ctx) {
 					}
 				case has == "false" && zero:
 					sawZero = true
-					if valueCall == "" || fieldCall != "" || !decides(valueCall) {
-						fail("a singular field without presence that only one side has populated is not compared with the other side's zero value through the value comparer (x's value first)")
+					// only the configured comparer can make a populated value equal to the zero value the other side reads as:
+					// its verdict when it speaks (ok), unequal when it does not. equalValue would fall back to the exact
+					// comparison of the kind, under which a populated -0.0 equals an unset 0 (proto.Equal says they differ).
+					wantCmp := "eq.cmpValue(fd, v, call other.Get(fd))"
+					if pi == 1 {
+						wantCmp = "eq.cmpValue(fd, call other.Get(fd), v)"
+					}
+					// (with a pointer receiver the comparer is reached through *eq)
+					if l.AssignM["call *"+wantCmp+"#1"] != "" {
+						wantCmp = "*" + wantCmp
+					}
+					for _, cl := range l.Calls {
+						if cl == "*"+wantCmp {
+							wantCmp = "*" + wantCmp
+						}
+					}
+					cmpCalled := false
+					for _, cl := range l.Calls {
+						if cl == wantCmp {
+							cmpCalled = true
+						}
+					}
+					spoke := l.AssignM["call "+wantCmp+"#1"]
+					verdict := "call " + wantCmp + "#0"
+					storedFalse := false
+					for _, r := range l.Recs {
+						if strings.HasPrefix(r.Callee, "store ") && len(r.Args) == 1 {
+							storedFalse = r.Args[0].B != nil && !*r.Args[0].B
+						}
+					}
+					handsOn := func() bool {
+						if v, branched := l.AssignM[verdict]; branched {
+							return v == "true" || storedFalse || retFalse
+						}
+						return strings.Contains(stored, verdict) || strings.Contains(ret, verdict)
+					}
+					switch {
+					case valueCall != "" || fieldCall != "":
+						fail("a field that only one side has populated is compared with the other side's zero value by equalValue/equalField, whose exact comparison makes a populated -0.0 equal to an unset field (proto.Equal says they differ); only the configured value comparer may accept such a pair")
+					case !cmpCalled:
+						fail("a singular field without presence that only one side has populated is not put to the configured value comparer with the other side's zero value (x's value first)")
+					case spoke == "true" && !handsOn():
+						fail("the value comparer's verdict on a value and the other side's zero value is not what decides")
+					case spoke == "false" && !(storedFalse || retFalse):
+						fail("a populated field and an unpopulated one are not unequal when no value comparer speaks for the field")
+					case spoke == "":
+						fail("the value comparer's ok flag is not consulted for a field only one side has populated")
 					}
 				case has == "false" && notZero:
 					sawNo = true
@@ -440,6 +517,8 @@ func r161(c *an.Ctx) {
 				okTable, why = false, fmt.Sprintf("rows missing (both populated: %v, zero-comparable: %v, one side only: %v)", sawHas, sawZero, sawNo)
 			}
 			c.SawFunc(an.FuncName(ps.cb))
+			c.Check(sawIgnored, rule, name+"|"+which+": change_time of a Change is skipped whichever side carries it", ps.cb.Pos(), "the exception is decided before presence is looked at",
+				"the "+which+" has no path that skips change_time of a Change message before looking at which side has it populated: the exception only applies when both messages carry the field, so Change{change_time: T} and Change{} compare unequal although the comparer is specified to ignore change_time")
 			c.Check(okTable, rule, name+"|"+which+": populated on both sides, zero-comparable, or unequal", ps.cb.Pos(), fmt.Sprintf("%d paths", len(leaves)),
 				"the per-field verdict of the "+which+" is not the specified table: "+why+". With the default comparer a populated field must never equal an unpopulated one (proto.Equal); with a value comparer the zero value of a field without presence is a value like any other (FloatValueApprox(0,1) accepts 0 and 0.5)")
 		}
@@ -600,6 +679,58 @@ func r162and3(c *an.Ctx) {
 		}
 		c.Check(okKind && nOK > 0, "R16.2", cons+"|speaks (ok=true) only for fields of its own kind", f.Pos(), fmt.Sprintf("%d deciding path(s)", nOK), "the comparer reports ok=true on a path where no field-kind test succeeded: it overrides the comparison of fields of other kinds")
 
+		// R16.6: a float is always within any tolerance of itself. The arithmetic |x-y| <= max(margin, fraction*min(|x|,|y|))
+		// has no answer for NaN and for equal infinities (Inf-Inf is NaN, NaN <= t is false), so the identical pair has
+		// to be accepted before it: every deciding path on which x == y, or on which both are NaN, returns true, and the
+		// arithmetic verdict is only reached when neither holds.
+		if name == "FloatValueApprox" {
+			isEq := func(a string) bool {
+				return strings.Contains(a, "Float(x)") && strings.Contains(a, "Float(y)") && strings.Contains(a, "==") && !strings.Contains(a, "math.")
+			}
+			isNaN := func(a, side string) bool {
+				return strings.HasPrefix(a, "call math.IsNaN(") && strings.Contains(a, "Float("+side+")") && !strings.Contains(a, "Float("+map[string]string{"x": "y", "y": "x"}[side]+")")
+			}
+			sawEq, sawNaN, okIdent, why := false, false, true, ""
+			for _, l := range leaves {
+				if l.Undec != "" || l.Panics || len(l.Returns) != 2 || l.Returns[1].S != "true" {
+					continue
+				}
+				eq, nx, ny := "", "", ""
+				for a, v := range l.AssignM {
+					switch {
+					case isEq(a):
+						eq = v
+					case isNaN(a, "x"):
+						nx = v
+					case isNaN(a, "y"):
+						ny = v
+					}
+				}
+				accepted := l.Returns[0].S == "true"
+				switch {
+				case eq == "true":
+					sawEq = true
+					if !accepted {
+						okIdent, why = false, "a pair of equal values is not accepted"
+					}
+				case nx == "true" && ny == "true":
+					sawNaN = true
+					if !accepted {
+						okIdent, why = false, "NaN is not equivalent to NaN"
+					}
+				case !accepted && l.Returns[0].S != "false":
+					// the arithmetic verdict
+					if eq != "false" || !(nx == "false" || ny == "false") {
+						okIdent, why = false, "the arithmetic verdict is reached without the identical pair (x == y, both NaN) having been ruled out"
+					}
+				}
+			}
+			if okIdent && !(sawEq && sawNaN) {
+				okIdent, why = false, fmt.Sprintf("no path accepts the identical pair up front (x == y handled: %v, both NaN handled: %v)", sawEq, sawNaN)
+			}
+			c.Check(okIdent, "R16.6", cons+"|a value is equivalent to itself (equal infinities, NaN)", f.Pos(), "x == y and both-NaN are accepted before the arithmetic",
+				why+": |x-y| <= tolerance is false for x = y = +Inf (Inf-Inf is NaN) and for NaN, so the comparer is not reflexive there, while the default comparer and proto.Equal treat such a value as equal to itself; a resource with this equivalence re-emits an unchanged NaN/Inf reading on every write")
+		}
 		// R16.3
 		for i, r := range an.Returns(f) {
 			okFlag := false
@@ -1436,6 +1567,69 @@ func r165held(c *an.Ctx, rule string) {
 						why = "the reference (last delivered value) is written at " + c.Prog.Rel(in.Pos()) + " on a path that reaches the next iteration without delivering the change"
 					}
 				})
+			}
+			// the other direction, for a reference kept per id in a map: every delivery made while an equivalence is
+			// configured records what the subscriber now holds (a removal forgets the entry), else a later change is
+			// compared with a value the subscriber no longer has
+			if len(mapVals)+len(mapCells) > 0 && cmpCall.Parent() == f {
+				isRefWrite := func(in ssa.Instruction) bool {
+					isOurMap := func(m ssa.Value) bool {
+						for _, mv := range mapVals {
+							if m == mv {
+								return true
+							}
+						}
+						if ld, isLoad := m.(*ssa.UnOp); isLoad && ld.Op == token.MUL {
+							if cell := an.CellOf(ld.X); cell != nil {
+								for _, mc := range mapCells {
+									if mc.Alloc == cell.Alloc {
+										return true
+									}
+								}
+							}
+						}
+						return false
+					}
+					switch x := in.(type) {
+					case *ssa.MapUpdate:
+						return isOurMap(x.Map)
+					case *ssa.Call:
+						return an.CalleeName(x) == "builtin delete" && len(x.Call.Args) == 2 && isOurMap(x.Call.Args[0])
+					}
+					return false
+				}
+				// edges on which no equivalence is configured are exempt
+				noEquivalence := func(from, to *ssa.BasicBlock) bool {
+					iff, isIf := from.Instrs[len(from.Instrs)-1].(*ssa.If)
+					if !isIf || len(from.Succs) != 2 || from.Succs[0] == from.Succs[1] {
+						return false
+					}
+					x, trueMeansNil, ok := an.NilTest(iff.Cond)
+					if !ok || !isFieldLoad(x, "equivalence") {
+						return false
+					}
+					if trueMeansNil {
+						return to == from.Succs[0]
+					}
+					return to == from.Succs[1]
+				}
+				cons2 := name + "|every delivery updates what the subscriber holds"
+				var first ssa.Instruction
+				for _, in := range loop.Instrs {
+					if _, isPhi := in.(*ssa.Phi); !isPhi {
+						first = in
+						break
+					}
+				}
+				if first != nil {
+					t, _ := an.PathQuery{Target: func(x ssa.Instruction) bool { return an.IsSendSite(x) && loop.Dominates(x.Block()) }, Avoid: isRefWrite, AvoidEdge: noEquivalence}.From(f, first)
+					pos := cmpCall.Pos()
+					if t != nil {
+						pos = t.Pos()
+					}
+					c.Check(t == nil, rule, cons2, pos, "every path to the delivery writes or deletes the per-id reference",
+						"with an equivalence configured a change can be delivered without the per-id reference being written or deleted: after a delivered removal (or whichever kind of change skips the bookkeeping) the next change of that id is compared with a value the subscriber no longer holds, so a re-added item equivalent to the removed one is never announced")
+				}
 			}
 			c.Check(why == "", rule, cons, cmpCall.Pos(), fmt.Sprintf("%d loop-carried variable(s), %d shared variable(s), %d map(s)", len(hdrPhis), len(cells), len(mapVals)+len(mapCells)),
 				why+": a suppressed change still moves the reference, so a run of small steps is never reported although the subscriber's value is no longer equivalent to the stored one")
